@@ -826,6 +826,28 @@ pub fn cmd_hashes(m: &BTreeMap<String, String>) -> i32 {
     0
 }
 
+/// Executes one spec file and prints its event-log hash (used by the cross-build differential).
+pub fn cmd_hash_spec(m: &BTreeMap<String, String>) -> i32 {
+    let path = match m.get("_") {
+        Some(p) => p.clone(),
+        None => return 2,
+    };
+    let text = match std::fs::read_to_string(&path) {
+        Ok(t) => t,
+        Err(_) => return 2,
+    };
+    let spec = match parse_replay(&text) {
+        Ok(s) => s,
+        Err(e) => {
+            eprintln!("cannot parse {}: {}", path, e);
+            return 2;
+        }
+    };
+    let r = run_any(&spec, opts_for("DIFF"));
+    println!("{:016x} {}", r.hash, r.violations.len());
+    0
+}
+
 pub fn cmd_gen(m: &BTreeMap<String, String>) -> i32 {
     let prop = m.get("prop").cloned().unwrap_or_else(|| "C01".into());
     let mode = m.get("mode").cloned().unwrap_or_else(|| "random".into());
